@@ -39,6 +39,10 @@ def disc (s : Stack) : TStore SvcKey × List (Bool × SvcKey × Addr) := (s.foun
 
 @[simp] theorem disc_with_flushLog (s : Stack) (x : List (Dest × List SDEntry)) : disc { s with flushLog := x } = disc s := rfl
 @[simp] theorem disc_with_subLog (s : Stack) (x : List (Addr × Nat × List Eventgroup)) : disc { s with subLog := x } = disc s := rfl
+@[simp] theorem disc_with_subDup (s : Stack) (x : Bool) : disc { s with subDup := x } = disc s := rfl
+@[simp] theorem disc_with_subLost (s : Stack) (x : Bool) : disc { s with subLost := x } = disc s := rfl
+@[simp] theorem disc_with_alive_subLost (s : Stack) (x y : Bool) : disc { s with alive := x, subLost := y } = disc s := rfl
+@[simp] theorem disc_with_subDup_subEntries (s : Stack) (x : Bool) (y : List (Eventgroup × Addr)) : disc { s with subDup := x, subEntries := y } = disc s := rfl
 @[simp] theorem disc_flushTo (s : Stack) (es : List SDEntry) (d : Dest) : disc (s.flushTo es d) = disc s := by
   unfold flushTo; rw [disc_sendSd]; rfl
 
@@ -169,11 +173,11 @@ def disc (s : Stack) : TStore SvcKey × List (Bool × SvcKey × Addr) := (s.foun
 @[simp] theorem disc_subscriberStop (s : Stack) (b : Bool) : disc (s.subscriberStop b) = disc s := by
   unfold subscriberStop; split; rfl
   simp only []
-  have h1 : disc (match ({ s with alive := false } : Stack).subTask with
-      | some tid => { ({ s with alive := false } : Stack).cancelTask (.subscribe, tid) with subTask := none }
-      | none => ({ s with alive := false } : Stack)) = disc s := by
+  have h1 : disc (match ({ s with alive := false, subLost := !b } : Stack).subTask with
+      | some tid => { ({ s with alive := false, subLost := !b } : Stack).cancelTask (.subscribe, tid) with subTask := none }
+      | none => ({ s with alive := false, subLost := !b } : Stack)) = disc s := by
     split
-    · show disc (({ s with alive := false } : Stack).cancelTask _) = disc s; rw [disc_cancelTask]; rfl
+    · show disc (({ s with alive := false, subLost := !b } : Stack).cancelTask _) = disc s; rw [disc_cancelTask]; rfl
     · rfl
   split
   · rw [foldl_pres disc _ (fun s p => by simp)]; exact h1
